@@ -1094,3 +1094,88 @@ Proof.
     { change 10 with (Qnat 10). apply Qnat_le. exact Hn10. }
     pose proof (Qnat_nonneg (length A)). nra.
 Qed.
+
+(* the same for both call shapes: [b0] is a floor under the shrunk voter budget (0 for a given allocation,
+   budget / n for the searched non-exhaustive call, whose extra row asks for budget <= n * b) *)
+Lemma encoding_complete_floor I A W stable exh alloc b pay b0 :
+  Forall (fun c => 0 <= c) (costs I) -> integral (budget I) -> Forall integral (costs I) ->
+  1 <= budget I -> (0 < length A <= 10)%nat -> wf_alloc I W ->
+  price_system I A W b pay stable exh ->
+  alloc = None \/ alloc = Some W ->
+  0 <= b0 -> b0 <= b -> b0 <= budget I ->
+  (alloc = None -> exh = false -> budget I <= b0 * Qnat (length A)) ->
+  exists a, ps_constraints I A alloc stable exh a = true /\ binary I a
+            /\ (forall c, (c < nproj I)%nat -> (In c (alloc_of I a) <-> In c W)).
+Proof.
+  intros Hcost HBi Hci HB1 [Hn0 Hn10] Hwf Hps Halloc Hb00 Hb0b Hb0B Hlb.
+  set (b' := fold_left Qmax (map (spent I pay) (voters A)) b0).
+  assert (Hb'0 : b0 <= b') by apply fold_Qmax_ge_init.
+  assert (Hsp : forall i, (i < length A)%nat -> spent I pay i <= b').
+  { intros i Hi. apply fold_Qmax_ge_in. apply in_map. apply in_voters. exact Hi. }
+  assert (Hb'b : b' <= b).
+  { apply fold_Qmax_le; [exact Hb0b|]. intros y Hy. apply in_map_iff in Hy. destruct Hy as [i [<- Hi]].
+    destruct Hps as (_ & _ & _ & _ & HC2 & _). apply HC2. apply in_voters. exact Hi. }
+  assert (Hb'B : b' <= budget I).
+  { apply fold_Qmax_le; [exact Hb0B|]. intros y Hy. apply in_map_iff in Hy. destruct Hy as [i [<- Hi]].
+    apply (spent_le_budget I A W b pay stable exh i Hwf Hps). apply in_voters. exact Hi. }
+  pose proof (ps_shrink I A W b pay stable exh b' Hps Hb'b Hsp) as Hps'.
+  exists (asg_of I A W b' pay stable).
+  apply (encoding_complete I A W b' pay stable exh alloc Hcost Hwf Hps'); [lra|exact Halloc| | |].
+  - intros He. split; [exact HB1|]. destruct Hps as (_ & H0b & _).
+    apply exhaustive_gap; [exact HBi|exact Hci|apply H0b; exact He].
+  - intros Ha He. specialize (Hlb Ha He). pose proof (Qnat_nonneg (length A)). nra.
+  - eapply Qle_trans; [|apply bigM_ge_budget].
+    assert (Hq : Qnat (length A) <= 10).
+    { change 10 with (Qnat 10). apply Qnat_le. exact Hn10. }
+    pose proof (Qnat_nonneg (length A)). nra.
+Qed.
+
+(* the searched call: if some allocation has a price system (with budget <= n * b when the call is
+   non-exhaustive -- the library's "no empty allocation" row), the MIP has a solution selecting it *)
+Theorem encoding_complete_search_int I A W stable exh b pay :
+  Forall (fun c => 0 <= c) (costs I) -> integral (budget I) -> Forall integral (costs I) ->
+  1 <= budget I -> (0 < length A <= 10)%nat -> wf_alloc I W ->
+  price_system I A W b pay stable exh ->
+  (exh = false -> budget I <= b * Qnat (length A)) ->
+  exists a, ps_constraints I A None stable exh a = true /\ binary I a
+            /\ (forall c, (c < nproj I)%nat -> (In c (alloc_of I a) <-> In c W)).
+Proof.
+  intros Hcost HBi Hci HB1 Hn Hwf Hps Hlb.
+  assert (Hnq : 1 <= Qnat (length A)).
+  { change 1 with (Qnat 1). apply Qnat_le. lia. }
+  assert (Hb0 : 0 <= b).
+  { destruct Hps as (_ & _ & HP0 & _ & HC2 & _). destruct Hn as [Hn0 _].
+    eapply Qle_trans; [apply (spent_nonneg I A pay 0%nat HP0 Hn0)|apply HC2; exact Hn0]. }
+  destruct exh.
+  - apply (encoding_complete_floor I A W stable true None b pay 0 Hcost HBi Hci HB1 Hn Hwf Hps
+             (or_introl eq_refl)); [lra|exact Hb0|lra|discriminate].
+  - specialize (Hlb eq_refl).
+    assert (Hdiv : budget I / Qnat (length A) * Qnat (length A) == budget I) by (field; lra).
+    set (b0 := budget I / Qnat (length A)) in *.
+    assert (H0 : 0 <= b0) by nra.
+    apply (encoding_complete_floor I A W stable false None b pay b0 Hcost HBi Hci HB1 Hn Hwf Hps
+             (or_introl eq_refl) H0); [nra|nra|intros _ _; lra].
+Qed.
+
+(* outside the hypotheses: with a fractional cost the "+ 1" of row C0b makes the MIP reject an allocation that
+   is exhaustive and priceable (a signal for the code, outside the quantifier of the property) *)
+Lemma fractional_cost_incomplete :
+  let I := mkInst [1; 1 # 2] 1 in
+  let A := [[0%nat]] in
+  priceable_spec I A [0%nat] false true
+  /\ forall a, ps_constraints I A (Some [0%nat]) false true a = false.
+Proof.
+  intros I A. split.
+  - exists 1, (pay_of [[1; 0]]).
+    apply (witness_checker_sound I A [0%nat] 1 [[1; 0]] false true). vm_compute. reflexivity.
+  - intros a. destruct (ps_constraints I A (Some [0%nat]) false true a) eqn:E; [|reflexivity]. exfalso.
+    unfold ps_constraints in E. cbv zeta in E.
+    dand E Hlast. dand E Hc4. dand E Hc3. dand E Hc2. dand E Hc1. dand E Hex. dand E Hc0a.
+    dand E Ham. clear - Ham Hex.
+    unfold I, all_projects, nproj in Ham, Hex. simpl in Ham, Hex.
+    dand Ham Hx1. dand Hx1 Hx2. apply Qeqb_iff in Ham, Hx1.
+    dand Hex He1. dand He1 He2. apply Qleb_iff in He1.
+    unfold cost in He1. simpl in He1.
+    set (x0 := xv a 0%nat) in *. set (x1 := xv a 1%nat) in *. set (M := bigM _) in *.
+    assert (E1 : x1 * M == 0) by (rewrite Hx1; ring). lra.
+Qed.
